@@ -13,6 +13,9 @@ import RtenVerif.Model.Normalizer
   canonical and compatibility decomposition); `<M>`: the nonspacing marks; `<C>`: `a,b:c` entries.
 
 Answer: `ok <normalized cps>;<offsets>` or `panic`.
+
+`I` (coverage): the harness lists every `impl Normalizer for X` of the source; the model answers
+with the types it models.
 -/
 namespace RtenVerif.Driver.C30
 open RtenVerif.Driver RtenVerif.Normalizer
@@ -82,8 +85,12 @@ def mkUni (l d k : List (Nat × List Char)) (m : List Nat) (c : List ((Nat × Na
 
 def showChars (t : List Char) : String := showNats "," (t.map Char.toNat)
 
+/-- The `impl Normalizer for …` types the model covers (coverage request `I`). -/
+def modelled : String := "Bert,Replace,Sequence,Unicode"
+
 def handle (line : String) : String :=
   match line.splitOn ";" with
+  | ["I"] => modelled
   | ["N", chain, text, l, d, k, m, c] =>
     let r : Option String := do
       let (n, rest) ← parseChain chain.toList
